@@ -1,7 +1,7 @@
 (* C07 -- the VFS routes every request to the one mount owning the inode, and only to it.
    Only statements, closed by [exact]; proofs live in Proofs/Vfs*.v. *)
 From Coq Require Import List NArith Bool.
-From FB Require Import Model.Pseudo Gen.VfsTable Model.Vfs Proofs.VfsCodec Proofs.VfsAlloc Proofs.VfsInv Proofs.VfsRouting Proofs.VfsIssued.
+From FB Require Import Model.Pseudo Gen.VfsTable Model.Vfs Proofs.VfsCodec Proofs.VfsAlloc Proofs.VfsInv Proofs.VfsRouting Proofs.VfsIssued Proofs.PseudoWalk Proofs.VfsConsistent.
 Import ListNotations.
 Local Open Scope N_scope.
 
@@ -76,6 +76,62 @@ Theorem C07_issued_by_pseudo : forall s c o a r, wf s -> vfs_op s c o a = (Ok r,
   Forall (pseudo_or_root s) (reply_inodes r).
 Proof. exact issued_by_pseudo. Qed.
 
+(* crossing: a client walking a path component by component with LOOKUP from a pseudo directory stays in the pseudo
+   fs on every proper prefix that is not a mount point, reaches no backend, and receives the mounted root exactly at
+   the mount path (and the pseudo directory itself if nothing is mounted there) *)
+Theorem C07_crossing : forall ks s c a cur p, wf s -> pkids_ok (v_ps s) -> aget ROOT_ID (v_mps s) = None ->
+  cur <= VFS_MAX_INO -> ks <> [] ->
+  ps_walk (v_ps s) cur (map CNorm ks) = Ok (Some p) ->
+  (forall n q, (0 < n < length ks)%nat ->
+     ps_walk (v_ps s) cur (map CNorm (firstn n ks)) = Ok (Some q) -> aget q (v_mps s) = None) ->
+  forall r evs, client_walk s c a cur ks = (r, evs) -> r <> Panic ->
+    evs = [] /\ r = Ok (match aget p (v_mps s) with Some m => root_vino m | None => p end).
+Proof. exact crossing. Qed.
+(* a path that was just mounted resolves, walked from the root, to the mount point of the new mount *)
+Theorem C07_mount_resolves : forall s bid p map a s' idx evs, keys_lt (v_ps s) ->
+  ps_next (v_ps s) + N.of_nat (length (p_comps p)) <= two56 ->
+  vfs_mount s bid p map a = (s', VOk idx, evs) ->
+  exists pino m, ps_walk (v_ps s') ROOT_ID (p_comps p) = Ok (Some pino) /\
+                 aget pino (v_mps s') = Some m /\ mp_idx m = idx /\ mp_ino m = ma_ino a /\ keys_lt (v_ps s').
+Proof. exact mount_resolves. Qed.
+(* the side conditions on the pseudo fs hold along every history that creates fewer than 2^56 pseudo directories *)
+Theorem C07_pseudo_side_conditions : forall s, breach s -> keys_lt (v_ps s) /\ pkids_ok (v_ps s) /\ 0 < ps_next (v_ps s).
+Proof. exact breach_ps_ok. Qed.
+
+(* inode-number consistency.  Backend side: the number shown for backend inode y of slot idx is `shown idx y` in
+   lookup (entry.inode = attr.st_ino), in readdir (from dirent.ino), in readdirplus (from entry.inode, copied to the
+   dirent and to st_ino), and getattr answers st_ino = the number asked for: so a backend with
+   dirent.ino = entry.inode = y gets the same number everywhere.  Pseudo side: a child ci of a pseudo directory is
+   shown as `child_number s ci` (the mounted root if ci is a mount point) by lookup, readdir and readdirplus *)
+Theorem C07_ino_consistent_lookup : forall s c n nm a e ev evs, wf s -> vfs_op s c (OLookup n nm) a = (Ok (REntry e), ev :: evs) ->
+  exists b idx i, eff s n = Some (b, idx, i) /\ e_ino e = shown idx (e_ino (n_ent a)) /\ e_stino e = e_ino e.
+Proof. exact lookup_number. Qed.
+Theorem C07_ino_consistent_readdir : forall s c plus n size off lim a l ev evs, wf s ->
+  vfs_op s c (OReaddir plus n size off lim) a = (Ok (RDir l), ev :: evs) ->
+  exists b idx i, eff s n = Some (b, idx, i) /\
+    Forall (fun y => exists dino nm e, In (dino, nm, e) (n_dir a) /\ d_name (fst y) = nm /\
+                       d_ino (fst y) = shown idx (if plus then e_ino e else dino) /\
+                       (if plus then exists e', snd y = Some e' /\ e_ino e' = d_ino (fst y) /\ e_stino e' = d_ino (fst y)
+                        else snd y = None)) l.
+Proof. exact readdir_numbers. Qed.
+Theorem C07_ino_consistent_getattr : forall s c n a x ev evs, wf s -> n < two64 ->
+  vfs_op s c (OGetattr n) a = (Ok (RAttr x), ev :: evs) ->
+  exists b idx i, eff s n = Some (b, idx, i) /\ a_ino x = mk_vino idx i /\ (fs_idx n <> 0 -> a_ino x = n).
+Proof. exact getattr_number. Qed.
+Theorem C07_ino_consistent_pseudo_lookup : forall s c a cur k pn ci, wf s -> pkids_ok (v_ps s) -> aget ROOT_ID (v_mps s) = None ->
+  cur <= VFS_MAX_INO -> aget cur (ps_inodes (v_ps s)) = Some pn -> find_child k (pi_children pn) = Some ci ->
+  exists res, vfs_op s c (OLookup cur (NNorm k)) a = (res, []) /\
+    (res = Panic \/ exists e, res = Ok (REntry e) /\ e_ino e = child_number s ci).
+Proof. exact pseudo_lookup_number. Qed.
+Theorem C07_ino_consistent_pseudo_readdir : forall s c a plus cur size off lim pn l evs, wf s -> pkids_ok (v_ps s) ->
+  aget ROOT_ID (v_mps s) = None -> cur <= VFS_MAX_INO -> aget cur (ps_inodes (v_ps s)) = Some pn ->
+  vfs_op s c (OReaddir plus cur size off lim) a = (Ok (RDir l), evs) ->
+  evs = [] /\
+  Forall (fun y => exists ci, In (ci, d_name (fst y)) (pi_children pn) /\ d_ino (fst y) = child_number s ci /\
+                     (if plus then exists e', snd y = Some e' /\ e_ino e' = d_ino (fst y) /\ e_stino e' = d_ino (fst y)
+                      else snd y = None)) l.
+Proof. exact pseudo_readdir_numbers. Qed.
+
 (* scope: lseek/getlk/setlk/setlkw/ioctl/bmap/poll/notify_reply are not implemented by the Vfs; they
    reach no backend and fail *)
 Theorem C07_unforwarded : forall s c a m, In m unforwarded ->
@@ -90,6 +146,10 @@ Example C07_nonvacuous_state : exists s, reachable s /\ eff s (mk_vino 1 5) = So
   vacant s (mk_vino 3 1).
 Proof. exact ex_reachable. Qed.
 
+Example C07_nonvacuous_crossing : exists s, breach s /\ aget ROOT_ID (v_mps s) = None /\
+  ps_walk (v_ps s) ROOT_ID (map CNorm [2; 3]) = Ok (Some 4) /\ aget 4 (v_mps s) <> None /\ aget 3 (v_mps s) = None.
+Proof. exact ex_crossing. Qed.
+
 Print Assumptions C07_ino_codec.
 Print Assumptions C07_ino_codec_injective.
 Print Assumptions C07_alloc.
@@ -102,3 +162,11 @@ Print Assumptions C07_cross_mount_refused.
 Print Assumptions C07_unforwarded.
 Print Assumptions C07_issued_by_backend.
 Print Assumptions C07_issued_by_pseudo.
+Print Assumptions C07_crossing.
+Print Assumptions C07_mount_resolves.
+Print Assumptions C07_pseudo_side_conditions.
+Print Assumptions C07_ino_consistent_lookup.
+Print Assumptions C07_ino_consistent_readdir.
+Print Assumptions C07_ino_consistent_getattr.
+Print Assumptions C07_ino_consistent_pseudo_lookup.
+Print Assumptions C07_ino_consistent_pseudo_readdir.
